@@ -342,3 +342,7 @@ pub(crate) mod tests {
         Ok(())
     }
 }
+
+#[cfg(kani)]
+#[path = "/verif/harness/bcf/reader_record.rs"]
+mod verif_kani;
